@@ -23,6 +23,15 @@ of the line protocol (`step`) is a composition of them:
   `Class::declare_base`, `Block::new_handler`, `Expr_list::push_back`, `Block::add_stmt`) append the new member to one
   member list (and a redeclaration to the decl-set of its master);
 * `Warehouse` is client-side data, never part of a node.
+* language linkages, calling conventions and transfers (`get_linkage`, `get_calling_convention`, `get_transfer*`,
+  src/impl.cxx:1143-1164, 1739-1763) are find-or-insert too: a linkage / convention is keyed by its spelling (the `String`
+  and `Logogram` interned on the way are not handed to the client by that call), a transfer by its operands after the
+  normalisation of `get_transfer` (C++ linkage: the transfer of the convention alone; natural convention: the transfer of
+  the linkage alone); `get_function` / `get_as_type` given a transfer that EQUALS the natural C++ one (compared by value,
+  src/impl.cxx:1218-1219, 1288-1289) answer the plain function / as-type node;
+* `lookup` reads `scope[name][type]` (`Scope::operator[]`, `Overload::operator[]`): in a general scope the first declaration
+  entered with that name and type (src/impl.cxx:559-565, 1486-1491), in a homogeneous scope (parameter list, enumeration)
+  the FIRST member of that name, answered when it has that type (include/ipr/impl:596-601, 662-671).  It changes nothing.
 
 `obs` is what can be read through a node; `Obs.le` (⊑) is equality on everything but *prefix* on sequences and *gain* on links.
 Growth bursts (`burst`) create nodes that are never returned to the client: the model does nothing for them — relocation of
@@ -146,7 +155,9 @@ def unifiedFactories : List String :=
   ["get_string", "get_identifier", "get_identifier_s", "get_operator", "get_suffix", "get_conversion", "get_ctor_name",
    "get_dtor_name", "get_pointer", "get_reference", "get_rvalue_reference", "get_array", "get_qualified", "get_function",
    "get_ptr_to_member", "get_as_type", "get_tor", "get_forall", "get_product", "get_sum", "get_symbol", "get_label", "get_this",
-   "make_literal", "make_literal_s", "get_literal", "make_template_id", "get_template_id"]
+   "make_literal", "make_literal_s", "get_literal", "make_template_id", "get_template_id",
+   "get_linkage", "get_calling_convention", "get_transfer_from_linkage", "get_transfer_from_convention", "get_transfer",
+   "get_function_x", "get_as_type_x"]
 
 def isUnified (f : String) : Bool := unifiedFactories.contains f
 
@@ -249,6 +260,28 @@ def intern (s : State) (k : Key) : State × Option Id :=
   | _ => (s, none)
 
 def thisHex : String := "74686973"
+/-- `"C++"`, the spelling of the natural language linkage (`impl::cxx_link`, src/impl.cxx:155) -/
+def cxxHex : String := "432b2b"
+
+/-- the spelling a linkage / calling-convention record was requested with -/
+def spellingOf (s : State) (i : Id) : Option String :=
+  match (s.get i).args with
+  | [.str w] => some w
+  | _ => none
+
+/-- the VALUE of a transfer record: (spelling of its linkage, spelling of its convention); `Transfer_from_linkage` pairs its
+    linkage with the natural convention (spelled ""), `Transfer_from_cc` the C++ linkage with its convention
+    (include/ipr/impl:165-182, src/impl.cxx:215-217) -/
+def transferValue (s : State) (x : Id) : Option (String × String) :=
+  let r := s.get x
+  match r.tag, r.args with
+  | "get_transfer_from_linkage", [.node l] => (spellingOf s l).map fun a => (a, "")
+  | "get_transfer_from_convention", [.node c] => (spellingOf s c).map fun b => (cxxHex, b)
+  | "get_transfer", [.node l, .node c] => (spellingOf s l).bind fun a => (spellingOf s c).map fun b => (a, b)
+  | _, _ => none
+
+/-- `t == impl::cxx_transfer()` (include/ipr/interface:157-160: linkage and convention compared by VALUE) -/
+def isNaturalTransfer (s : State) (x : Id) : Bool := transferValue s x == some (cxxHex, "")
 
 /-- What a unified request is looked up under, after interning what the code interns on the way
     (`none`: the call raises; the state returned contains the interned operands). -/
@@ -299,6 +332,16 @@ def resolve (s : State) (f : String) (args : List Arg) : State × Option Key :=
     | _ => (s, none)
   | "make_literal_s", [.node t, .node sid] => (s, some ("make_literal", [.node t, .node sid]))
   | "get_template_id", a => (s, some ("make_template_id", a))
+  | "get_transfer", [.node l, .node c] =>
+    if spellingOf s l = some cxxHex then (s, some ("get_transfer_from_convention", [.node c]))
+    else if spellingOf s c = some "" then (s, some ("get_transfer_from_linkage", [.node l]))
+    else (s, some ("get_transfer", [.node l, .node c]))
+  | "get_function_x", [.node p, .node t, .node x] =>
+    if isNaturalTransfer s x then (s, some ("get_function", [.node p, .node t]))
+    else (s, some ("get_function_x", [.node p, .node t, .node x]))
+  | "get_as_type_x", [.node e, .node x] =>
+    if isNaturalTransfer s x then (s, some ("get_as_type", [.node e]))
+    else (s, some ("get_as_type_x", [.node e, .node x]))
   | f, a => (s, some (f, a))
 
 def keyMems (k : Key) : List Id :=
@@ -345,6 +388,7 @@ inductive Op
   | whPush (w : Nat) (t : Id)
   | whDrop (w : Nat)
   | burst
+  | lookup (sc n t : Id)
   | bad
 deriving Repr, Inhabited
 
@@ -360,6 +404,20 @@ def scopeOf (s : State) (c : Id) : Option Id :=
 /-- the first declaration of the same name and type in the scope -/
 def masterOf (s : State) (sc : Id) (n t : Id) : Option Id :=
   (s.get sc).mems.find? fun d => (s.get d).args == [.node n, .node t]
+
+/-- `homogeneous_scope::operator[](name)` then `singleton_overload::operator[](type)`: the FIRST member whose name is `n`
+    (linear search, include/ipr/impl:662-671), answered when its type is `t` (include/ipr/impl:596-601).  The name of a
+    parameter / enumerator is its first operand, its type is `typ`. -/
+def lookupHom (s : State) (sc n t : Id) : Option Id :=
+  match (s.get sc).mems.find? fun d => (s.get d).args.head? == some (.node n) with
+  | some d => if (s.get d).typ == some t then some d else none
+  | none => none
+
+/-- what `scope[n][t]` answers for the scope record `sc` (`none`: not a scope record) -/
+def lookupIn (s : State) (sc n t : Id) : Option (Option Id) :=
+  if (s.get sc).tag == "hscope" then some (lookupHom s sc n t)
+  else if (s.get sc).tag == "scope" then some (masterOf s sc n t)
+  else none
 
 def declKinds : List String := ["var", "field", "bitfield", "typedecl", "fundecl", "primary_template", "secondary_template"]
 
@@ -470,6 +528,13 @@ def step (s : State) : Op → State × Res
     | some (some _) => ({ s with whs := s.whs.set w none }, .unit)
     | _ => (s, .bad)
   | .burst => (s, .unit)
+  | .lookup sc n t =>
+    if sc < s.size ∧ n < s.size ∧ t < s.size then
+      match lookupIn s sc n t with
+      | some (some d) => if d < s.size then (s, .node d) else (s, .bad)
+      | some none => (s, .unit)
+      | none => (s, .bad)
+    else (s, .bad)
   | .bad => (s, .bad)
 
 def run (ops : List Op) : State := ops.foldl (fun s op => (step s op).1) {}
